@@ -120,6 +120,21 @@ def parseOp : SExp → Option Op
   | .list [.atom "reopen", ds, fg, th] => do
     let l ← asListOf? data? ds
     if l.length = 3 then some (.reopen l (← asListOf? optId? fg) (← thenAnchor? th)) else none
+  | .list [.atom "rmAbsentPoint", t, rc] => do some (.rmAbsentPoint (← glyphT? t) (← asNat? rc))
+  | .list [.atom "rmAbsent", kind, t, k] => do
+    let kd ← asNat? kind
+    let tt ← anyT? t
+    -- the font only holds guidelines
+    if kd < 4 ∧ (tt < 3 ∨ kd = 3) then some (.rmAbsent kd tt (← asNat? k)) else none
+  | .list [.atom "rmForeign", kind, t, src, r] => do
+    let kd ← asNat? kind
+    let tt ← anyT? t
+    let ss ← anyT? src
+    if kd < 4 ∧ ((tt < 3 ∧ ss < 3) ∨ kd = 3) then some (.rmForeign kd tt ss (← asNat? r)) else none
+  | .list [.atom "insAnchorBad", t, r, v] => do some (.insAnchorBad (← glyphT? t) (← asNat? r) (← optId? v))
+  | .list [.atom "insGuideBad", t, r, v] => do some (.insGuideBad (← anyT? t) (← asNat? r) (← optId? v))
+  | .list [.atom "setAnchorsBad", t, vs] => do some (.setAnchorsBad (← glyphT? t) (← asListOf? optId? vs))
+  | .list [.atom "setGuidesBad", t, vs] => do some (.setGuidesBad (← anyT? t) (← asListOf? optId? vs))
   | _ => none
 
 def encOptId (v : Option Id) : SExp := ofOpt ofNat v
